@@ -19,13 +19,22 @@
  *                                   mode a2r10 PIXMAN_OP_SRC onto an a2r10g10b10 destination
  *                                   logged per pixel as channel numerators a,r,g,b over the denominators `max`
  *                                   (float: lround (f * 16320) over 16320)
+ *   Z role op dfmt mask x0 y0 n rows dx k (i0 j0 wn hn)[k]
+ *                                   a request that may lie far from the origin / be tens of thousands of pixels
+ *                                   wide or tall: composite of an n x rows rectangle with op src|over into a
+ *                                   destination of format dfmt (a8r8g8b8|x8r8g8b8|r5g6b5; filled with 0 for over,
+ *                                   with a pattern for src) at column dx; role src: image at (x0,y0), mask none |
+ *                                   solid (white solid fill) | a8 (an a8 image of 0xff); role mask: solid white
+ *                                   source, the image as component-alpha mask.  Only the k windows (offsets within
+ *                                   the request) of the destination are logged.
  * The implementation chain is chosen by the environment (PIXMAN_DISABLE), one process per chain.
  */
 #include "vcommon.h"
 #include <pixman.h>
 #include <math.h>
 
-#define MAXPIX 4096
+#define MAXPIX 70000
+#define MAXWIN 16
 #define MAXPAR 4096
 
 static pixman_image_t *img;
@@ -239,6 +248,108 @@ main (int argc, char **argv)
 		{
 		    uint32_t v = dbits[y * dw + dx + x];
 		    fprintf (vt_out, x ? ",[%u,%u]" : "[%u,%u]", v >> 16, v & 0xffff);
+		}
+		fputs ("]", vt_out);
+	    }
+	    fputs ("]", vt_out);
+	    vt_end ();
+	    pixman_image_unref (dst);
+	    free (dbits);
+	}
+	else if (kind[0] == 'Z')
+	{
+	    char op[16], dfmt[32], mk[16];
+	    int x0, y0, n, rows, dx, k, i, x, y, dw, bpp, stride;
+	    int win[MAXWIN][4];
+	    uint8_t *dbits, *mbits = NULL;
+	    uint32_t before;
+	    pixman_format_code_t dcode;
+	    pixman_op_t pop;
+	    pixman_image_t *dst, *white = NULL, *mimg = NULL;
+	    pixman_color_t c = { 0xffff, 0xffff, 0xffff, 0xffff };
+	    if (fscanf (in, "%127s %15s %31s %15s %d %d %d %d %d %d", name, op, dfmt, mk, &x0, &y0, &n, &rows, &dx, &k) != 10)
+		return 3;
+	    if (!img || n < 1 || rows < 1 || n > 65536 || rows > 65536 || (long)n * rows > (1L << 22) ||
+		dx < 0 || dx > 16 || k < 1 || k > MAXWIN)
+		return 3;
+	    for (i = 0; i < k; i++)
+	    {
+		if (fscanf (in, "%d %d %d %d", &win[i][0], &win[i][1], &win[i][2], &win[i][3]) != 4) return 3;
+		if (win[i][0] < 0 || win[i][1] < 0 || win[i][2] < 1 || win[i][3] < 1 ||
+		    win[i][0] + win[i][2] > n || win[i][1] + win[i][3] > rows)
+		    return 3;
+	    }
+	    if (!strcmp (dfmt, "a8r8g8b8")) { dcode = PIXMAN_a8r8g8b8; bpp = 4; }
+	    else if (!strcmp (dfmt, "x8r8g8b8")) { dcode = PIXMAN_x8r8g8b8; bpp = 4; }
+	    else if (!strcmp (dfmt, "r5g6b5")) { dcode = PIXMAN_r5g6b5; bpp = 2; }
+	    else return 3;
+	    if (!strcmp (op, "src")) { pop = PIXMAN_OP_SRC; before = bpp == 4 ? 0x5a3c7e91 : 0x7e91; }
+	    else if (!strcmp (op, "over")) { pop = PIXMAN_OP_OVER; before = 0; }
+	    else return 3;
+	    dw = dx + n + 3;
+	    stride = (dw * bpp + 3) & ~3;
+	    dbits = malloc ((size_t)stride * rows);
+	    if (!dbits) return 3;
+	    for (y = 0; y < rows; y++)
+		for (x = 0; x < dw; x++)
+		{
+		    if (bpp == 4) ((uint32_t *)(dbits + (size_t)y * stride))[x] = before;
+		    else ((uint16_t *)(dbits + (size_t)y * stride))[x] = (uint16_t)before;
+		}
+	    dst = pixman_image_create_bits (dcode, dw, rows, (uint32_t *)dbits, stride);
+	    if (!dst) return 3;
+	    if (!strcmp (name, "mask"))
+	    {
+		white = pixman_image_create_solid_fill (&c);
+		pixman_image_set_component_alpha (img, 1);
+		/* the solid image is addressed at the same coordinates as the bits image: the library refuses
+		 * requests whose coordinates in the space of *any* of the images leave 16 bits */
+		pixman_image_composite32 (pop, white, img, dst, x0, y0, x0, y0, dx, 0, n, rows);
+		pixman_image_set_component_alpha (img, 0);
+		pixman_image_unref (white);
+	    }
+	    else
+	    {
+		int mx = x0, my = y0;
+		if (!strcmp (mk, "solid"))
+		    mimg = pixman_image_create_solid_fill (&c);
+		else if (!strcmp (mk, "a8"))
+		{
+		    int ms = (dw + 3) & ~3;
+		    mbits = malloc ((size_t)ms * rows);
+		    if (!mbits) return 3;
+		    memset (mbits, 0xff, (size_t)ms * rows);
+		    mimg = pixman_image_create_bits (PIXMAN_a8, dw, rows, (uint32_t *)mbits, ms);
+		    mx = dx; my = 0;
+		}
+		else if (strcmp (mk, "none"))
+		    return 3;
+		pixman_image_composite32 (pop, img, mimg, dst, x0, y0, mx, my, dx, 0, n, rows);
+		if (mimg)
+		    pixman_image_unref (mimg);
+		free (mbits);
+	    }
+	    vt_begin ("FetchWin");
+	    vt_str ("role", name); vt_str ("op", op); vt_str ("dfmt", dfmt); vt_str ("mask", mk);
+	    fprintf (vt_out, ",\"before\":[%u,%u]", before >> 16, before & 0xffff);
+	    vt_int ("x0", x0); vt_int ("y0", y0); vt_int ("n", n); vt_int ("rows", rows); vt_int ("dx", dx);
+	    fputs (",\"wins\":[", vt_out);
+	    for (i = 0; i < k; i++)
+		fprintf (vt_out, "%s[%d,%d,%d,%d]", i ? "," : "", win[i][0], win[i][1], win[i][2], win[i][3]);
+	    fputs ("],\"out\":[", vt_out);
+	    for (i = 0; i < k; i++)
+	    {
+		fputs (i ? ",[" : "[", vt_out);
+		for (y = 0; y < win[i][3]; y++)
+		{
+		    fputs (y ? ",[" : "[", vt_out);
+		    for (x = 0; x < win[i][2]; x++)
+		    {
+			uint8_t *row = dbits + (size_t)(win[i][1] + y) * stride;
+			uint32_t v = bpp == 4 ? ((uint32_t *)row)[dx + win[i][0] + x] : ((uint16_t *)row)[dx + win[i][0] + x];
+			fprintf (vt_out, x ? ",[%u,%u]" : "[%u,%u]", v >> 16, v & 0xffff);
+		    }
+		    fputs ("]", vt_out);
 		}
 		fputs ("]", vt_out);
 	    }
